@@ -603,12 +603,18 @@ func (ctl *c12Ctl) checkPool() {
 			}
 		}
 	}
-	seenFree := map[interface{}]bool{}
+	// the free list: objects the harness has seen (others were never handed out)
+	var seenFree []interface{}
 	for _, f := range free {
-		if seenFree[f] {
-			ctl.fail("C12:one-entry", "a connection object is twice in the free list")
+		if _, known := ctl.connID[f]; !known {
+			continue
 		}
-		seenFree[f] = true
+		for _, g := range seenFree {
+			if g == f {
+				ctl.fail("C12:one-entry", "a connection object is twice in the free list")
+			}
+		}
+		seenFree = append(seenFree, f)
 		if k, in := seenConn[f]; in {
 			ctl.fail("C12:one-entry", fmt.Sprintf("the connection of %s is also in the free list", k))
 		}
@@ -652,10 +658,18 @@ func (ctl *c12Ctl) streamID(st interface{}) int {
 	return -1
 }
 
+// tcpassembly assemblers of finished cases (each owns a 2 MB page cache), reused with VerifRebind
+var c12AsmCache []*tcpassembly.Assembler
+
 func (ctl *c12Ctl) addThread(prog []c12Op) *c12Thread {
 	th := &c12Thread{id: len(ctl.threads), resume: make(chan struct{}), prog: prog}
 	if ctl.pkg == "t" {
-		th.tasm = tcpassembly.NewAssembler(ctl.tpool)
+		if n := len(c12AsmCache); n > 0 {
+			th.tasm, c12AsmCache = c12AsmCache[n-1], c12AsmCache[:n-1]
+			th.tasm.VerifRebind(ctl.tpool)
+		} else {
+			th.tasm = tcpassembly.NewAssembler(ctl.tpool)
+		}
 	} else {
 		th.rasm = reassembly.NewAssembler(ctl.rpool)
 	}
@@ -743,6 +757,13 @@ func c12Execute(p c12Case, record bool) (*c12Ctl, string) {
 		} else {
 			status = "hang"
 			ctl.fail("C12:stuck", "the final FlushAll did not reach its next yield point within 5 s")
+		}
+	}
+	if status == "done" {
+		for _, th := range ctl.threads {
+			if th.tasm != nil {
+				c12AsmCache = append(c12AsmCache, th.tasm)
+			}
 		}
 	}
 	return ctl, status
